@@ -40,13 +40,15 @@ def work(job):
     out = []
     analyzers = []
     GETTERS = ["get_material_id", "get_wyckoff_letters_original", "get_primitive_system", "get_conventional_system",
-               "get_equivalent_atoms_primitive", "get_has_free_wyckoff_parameters", "get_wyckoff_sets_conventional", "get_space_group_number"]
+               "get_equivalent_atoms_primitive", "get_has_free_wyckoff_parameters", "get_wyckoff_sets_conventional", "get_space_group_number",
+               "get_wyckoff_letters_primitive", "get_wyckoff_letters_conventional", "get_equivalent_atoms_conventional",
+               "get_equivalent_atoms_original", "get_is_chiral", "get_bravais_lattice"]
     for j in range(npres):
         if j == 0:
             at, pres = c["atoms"], {"p_index": 0, "as_generated": True}
         else:
             at, pres = crystals.present(c["atoms"], rng, p_index=(sg + stream + 3 * j) % len(crystals.PRESENT_P), unwrap=bool(j % 2 == 0),
-                                        primitive=bool(j % 3 == 1))
+                                        primitive=bool(j % 3 == 1), origin_on_atom=bool(j == npres - 1 and j % 2 == 1))
         r = {"sg": sg, "cid": "%d/%d/%s" % (sg, stream, "".join(letters or [])), "j": j, "pres": pres, "gen_letters": c["letters"], "two_dimensional": False,
              "gen_species": c["species"]}
         try:
